@@ -274,7 +274,9 @@ def run_check(check, tier, seed):
     """Returns exit code."""
     t0 = time.time()
     pid = check.pid
-    budget = check.quick_budget_s if tier == "quick" else check.thorough_budget_s
+    # The budget only guards against run-away generators: on a cold or loaded machine a tight budget would cut
+    # the case stream short and make the evidence depend on machine speed, so it is never below 4 / 25 minutes.
+    budget = max(check.quick_budget_s, 240) if tier == "quick" else max(check.thorough_budget_s, 1500)
     deadline = t0 + budget
     ob = leantools.obligations(pid)
     driver_file = ob.get("driver")
